@@ -48,7 +48,7 @@ Lemma stage2_corner_fields c r :
   fc_elem (stage2 c r) = fc_elem r /\ fc_adj (stage2 c r) = fc_adj r /\
   cc_elem (stage2 c r) = cc_elem r /\ cc_adj (stage2 c r) = cc_adj r.
 Proof.
-  unfold stage2, stage1.
+  unfold stage2, stage1, prepare_vertices; cbn [fc_elem fc_adj cc_elem cc_adj].
   destruct (snd c), (fst c); rewrite ?cef_fc_elem, ?cef_fc_adj, ?cef_cc_elem, ?cef_cc_adj,
     ?cfc_fc_elem, ?cfc_fc_adj, ?cfc_cc_elem, ?cfc_cc_adj; auto.
 Qed.
@@ -126,13 +126,47 @@ Proof. unfold top_dim. destruct (nonempty (cells r)), (nonempty (faces r)), (non
 Corollary class_no_override c r k r' : instanciate c None r = Ok (k, r') -> k = top_dim r'.
 Proof. intros H. apply class_thm in H as (_ & -> & _). pose proof (top_dim_range r'). lia. Qed.
 
+(* ------------------------------------------------------------ 3-D vertices *)
+Lemma prep_vertex_2 x y : prep_vertex [x; y] = [x; y; 0].
+Proof. reflexivity. Qed.
+
+Lemma prep_vertex_other v : zlen v <> 2 -> prep_vertex v = v.
+Proof. intros H. unfold prep_vertex, pv_pad_needed. destruct (zlen v =? 2) eqn:E; [apply Z.eqb_eq in E; lia | reflexivity]. Qed.
+
+Lemma prep_vertex_len v : (zlen v = 2 \/ zlen v = 3) -> length (prep_vertex v) = 3%nat.
+Proof.
+  intros [H|H].
+  - destruct v as [|x [|y [|z t]]]; unfold zlen in H; cbn [length] in H; try lia. reflexivity.
+  - rewrite prep_vertex_other by lia. unfold zlen in H. lia.
+Qed.
+
+Lemma prep_vertex_idem v : prep_vertex (prep_vertex v) = prep_vertex v.
+Proof.
+  destruct (Z.eq_dec (zlen v) 2) as [H|H].
+  - destruct v as [|x [|y [|z t]]]; unfold zlen in H; cbn [length] in H; try lia. reflexivity.
+  - now rewrite !(prep_vertex_other v H).
+Qed.
+
+(* however the raw data came (containers, arrays, a parsed file): 2-D points are padded with 0, 3-D points are kept;
+   points of any other width (1-D, 4-D, ...) are left as they are - only from_arrays pads 1-D points and rejects wider ones *)
+Theorem vertices_3d_thm c r r' : prepare c r = Ok r' ->
+  vertices r' = map prep_vertex (vertices r)
+  /\ (forall x y, prep_vertex [x; y] = [x; y; 0])
+  /\ (forall v, zlen v <> 2 -> prep_vertex v = v)
+  /\ (Forall (fun v => zlen v = 2 \/ zlen v = 3) (vertices r) -> Forall (fun v => length v = 3%nat) (vertices r')).
+Proof.
+  intros H. apply prepare_fields in H as (Hv & _). split; [exact Hv|]. split; [exact prep_vertex_2|].
+  split; [exact prep_vertex_other|]. intros HF. rewrite Hv. apply Forall_forall. intros v Hin.
+  apply in_map_iff in Hin as [v0 [<- Hv0]]. apply prep_vertex_len. rewrite Forall_forall in HF. now apply HF.
+Qed.
+
 (* ------------------------------------------------------------ from_arrays: 3-D vertices *)
 Lemma fa_core c n V' E F C k r' :
   (if existsb (fun e : edge => fa_edge_index_bad (fst e) n || fa_edge_index_bad (snd e) n) E then Err EArr
    else if existsb (existsb (fun x => fa_face_index_bad x n)) F then Err EArr
    else if existsb (existsb (fun x => fa_cell_index_bad x n)) C then Err EArr
    else instanciate c None (mkRaw V' E [] F [] [] C [] [] [] [])) = Ok (k, r') ->
-  vertices r' = V'
+  vertices r' = map prep_vertex V'
   /\ (forall e, In e E -> fst e < n /\ snd e < n)
   /\ (forall f x, In f (F ++ C) -> In x f -> x < n)
   /\ k = top_dim r'.
@@ -168,12 +202,17 @@ Proof.
   assert (Hlen : w <= 3 -> Forall (fun v => length v = 3%nat) (map (fun v => v ++ repeat 0 (Z.to_nat (3 - w))) V)).
   { intros Hw. apply Forall_forall. intros v Hin. apply in_map_iff in Hin as [v0 [<- Hv0]].
     rewrite app_length, repeat_length. specialize (HV v0 Hv0). unfold zlen in HV. lia. }
+  assert (Hid : forall L, Forall (fun v : list Z => length v = 3%nat) L -> map prep_vertex L = L).
+  { intros L HL. apply map_id_in. intros v Hv. rewrite Forall_forall in HL. specialize (HL v Hv).
+    apply prep_vertex_other. unfold zlen. lia. }
   destruct (w <? 3) eqn:E1; cbn.
-  - intros H. apply fa_core in H as (Hv & He & Hf & Hk). assert (w <= 3) by lia.
-    rewrite Hv. auto 8.
+  - intros H. apply fa_core in H as (Hv & He & Hf & Hk). assert (Hw : w <= 3) by lia.
+    assert (Hv' : vertices r' = map (fun v => v ++ repeat 0 (Z.to_nat (3 - w))) V) by (rewrite Hv; apply Hid; exact (Hlen Hw)).
+    rewrite Hv'. auto 8.
   - destruct (w =? 3) eqn:E2; cbn; [|discriminate]. apply Z.eqb_eq in E2.
     intros H. apply fa_core in H as (Hv & He & Hf & Hk). assert (Hw : w <= 3) by lia.
     assert (HVV : map (fun v : list Z => v ++ repeat 0 (Z.to_nat (3 - w))) V = V).
     { rewrite E2. cbn. apply map_id_in. intros; apply app_nil_r. }
-    specialize (Hlen Hw). rewrite HVV in *. rewrite Hv. auto 8.
+    specialize (Hlen Hw). rewrite HVV in *.
+    assert (Hv' : vertices r' = V) by (rewrite Hv; apply Hid; exact Hlen). rewrite Hv'. auto 8.
 Qed.
